@@ -18,7 +18,8 @@ LEVEL = "model_checking"
 ENGINE = "E3"
 TECHNIQUE = "controlled-scheduler exploration (iterative deviation bounding) of the real asyncio drivers on a virtual event loop against gateway models; wire log vs independent per-caller expansion"
 RULE = ("scenario = driver x ordered list of callers from {P single command, Q query, D device-type command, C device-type send-twice command, T send-twice, "
-        "S multi-command sequence with device type + sleep, R sequence that raises, X cancellable sequence}; all schedules with "
+        "S multi-command sequence with device type + sleep, R sequence that raises, X cancellable sequence, Y cancellable single send}; "
+        "callers started one after the other (start = deviation) and, for the cancellation triples, all started back to back; all schedules with "
         "<= d deviations over {run batch, gateway report, start next caller, timer, cancel}; states = distinct (wire order, caller "
         "outcomes) observations, transitions = scheduler events executed, traces = executions")
 ASSUMPTIONS = [
@@ -29,7 +30,7 @@ ASSUMPTIONS = [
 ]
 SANITY = ["wire_frames_tridonic", "wire_frames_hasseb", "wire_frames_luba", "wire_frames_sci", "executions_with_cancel",
           "executions_with_two_callers_on_the_wire"]
-BOUNDS = {"quick": "4 drivers x (64 ordered caller pairs at d<=1, 12 pairs at d<=2, 27 triples at d<=1)",
+BOUNDS = {"quick": "4 drivers x (64 ordered caller pairs at d<=1, 12 pairs at d<=2, 27 triples at d<=1; eager start: 18 triples with a cancellable middle caller at d<=1, 6 pairs at d<=2)",
           "thorough": "4 drivers x (all pairs at d<=2, 6 pairs at d<=3, all 512 triples at d<=1, 27 triples at d<=2, 16 quadruples at d<=1)"}
 
 KINDS = ["P", "Q", "D", "C", "T", "S", "R", "X"]
@@ -59,6 +60,8 @@ def unit_descs(kind, k):
         return [((G, "Off", (a,)), 0)]
     if kind == "Q":
         return [((G, "QueryActualLevel", (a,)), 0)]
+    if kind == "Y":         # a plain send() that its caller may cancel (e.g. wait_for timeout) at any point
+        return [((G, "QueryStatus", (a,)), 0)]
     if kind == "D":
         return [(dt_cmd_desc(k), DT[k])]
     if kind == "T":
@@ -104,10 +107,10 @@ def make_caller(kind, k, gens):
         largs = [GearShort(x[1]) if isinstance(x, tuple) else x for x in args]
         return cls(*largs)
     descs = [d for d, dt in unit_descs(kind, k)]
-    if kind in ("P", "Q", "D", "T", "C"):
+    if kind in ("P", "Q", "D", "T", "C", "Y"):
         async def co(w):
             return await w.driver.send(lib(descs[0]))
-        return Caller(f"{kind}{k}", co)
+        return Caller(f"{kind}{k}", co, cancellable=(kind == "Y"))
     if kind in ("S", "X"):
         def gen():
             yield lib(descs[0])
@@ -137,7 +140,7 @@ def make_caller(kind, k, gens):
     raise AssertionError(kind)
 
 
-def make_world(driver, kinds):
+def make_world(driver, kinds, eager=False):
     def make():
         gens = {}
         callers = [make_caller(kd, i + 1, gens) for i, kd in enumerate(kinds)]
@@ -149,6 +152,7 @@ def make_world(driver, kinds):
             w = SerialWorld(driver, bus, callers)
         w.gens = gens
         w.timer_budget = 12
+        w.eager_start = eager
         return w
     return make
 
@@ -222,7 +226,7 @@ def judge(res, driver, kinds, w, obs):
             ok = (kd == "R" and oc[1] == "RuntimeError") or (driver in ("luba", "sci") and oc[1] == "TimeoutError")
             if not ok:
                 add_violation(res, f"C15:{tag}:caller-raised:{oc[1]}", f"{driver} {kinds}: caller {nm} raised {oc[1:]}", case)
-        elif oc[0] == "cancelled" and kd != "X":
+        elif oc[0] == "cancelled" and kd not in ("X", "Y"):
             add_violation(res, f"C15:{tag}:caller-cancelled", f"{driver} {kinds}: caller {nm} was cancelled by nobody", case)
         elif oc[0] == "returned" and kd == "R":
             add_violation(res, f"C15:{tag}:exception-swallowed", f"{driver} {kinds}: raising sequence {nm} returned {oc[1]!r}", case)
@@ -274,13 +278,21 @@ def shards(tier):
                 out.append(("run", drv, tr, 2))
             for q in itertools.product(["S", "D"], repeat=4):
                 out.append(("run", drv, q, 1))
+        # all callers started back to back (start is the default event), the middle one cancellable: a caller
+        # cancelled while it is still queueing for the lock, behind one that is in flight and ahead of another
+        for a in ("Q", "S", "D"):
+            for mid in ("Y", "X"):
+                for c in ("Q", "D", "S"):
+                    out.append(("eager", drv, (a, mid, c), 1 if tier == "quick" else 2))
+            out.append(("eager", drv, (a, "Y"), 2))
+            out.append(("eager", drv, ("Y", a), 2))
     return out
 
 
 def run_shard(shard):
     res = new_result()
-    _, drv, kinds, bound = shard
-    mk = make_world(drv, kinds)
+    mode, drv, kinds, bound = shard
+    mk = make_world(drv, kinds, eager=(mode == "eager"))
     outs = set()
     for ch, got in explore(lambda c: execute(mk, c), bound):
         w, obs = got
@@ -294,6 +306,7 @@ def run_shard(shard):
     # attach the schedule to each violation for replay (re-found by exploring the same scenario)
     for v in res["violations"]:
         v["case"]["bound"] = bound
+        v["case"]["eager"] = (mode == "eager")
     res["states"] = len(outs)
     res["distinct"] = {(drv, tuple(kinds), o) for o in outs}
     sample(res, {"driver": drv, "callers": list(kinds), "bound": bound, "executions": res["evaluations"],
@@ -304,7 +317,7 @@ def run_shard(shard):
 def replay(case):
     res = new_result()
     drv, kinds, bound = case["driver"], tuple(case["kinds"]), case.get("bound", 2)
-    mk = make_world(drv, kinds)
+    mk = make_world(drv, kinds, eager=case.get("eager", False))
     first = None
     for ch, got in explore(lambda c: execute(mk, c), bound):
         w, obs = got
